@@ -49,6 +49,11 @@ func alphabet() []opDesc {
 	}
 	// a filter on a sibling branch that must never show up
 	ops = append(ops, opDesc{"sub", 2, "b/"})
+	// the watcher is an ordinary client too: it can subscribe itself (and hears about it)
+	ops = append(ops, opDesc{"sub", 0, "a/"}, opDesc{"unsub", 0, "a/"})
+	// a deeper sub-channel and the second client leaving
+	ops = append(ops, opDesc{"sub", 1, "a/b/c/"}, opDesc{"unsub", 1, "a/b/c/"})
+	ops = append(ops, opDesc{Kind: "disconnect", C: 2})
 	return ops
 }
 
@@ -257,7 +262,7 @@ func (in *inst) Check() (string, string) {
 		return in.sig(in.pending), in.pwhat
 	}
 	// status probes (do not change state)
-	for _, ch := range []string{"a/", "a/b/", "b/"} {
+	for _, ch := range []string{"a/", "a/b/", "a/b/c/", "b/"} {
 		resp, ok := in.cl[0].Request("presence", map[string]interface{}{"key": in.w.key, "channel": ch, "status": true})
 		if !ok || resp.Topic != "emitter/presence/" {
 			return in.sig("status-refused"), fmt.Sprintf("status request for %s answered with %v", ch, resp)
@@ -344,9 +349,9 @@ func run(c *core.Ctx) {
 	for i, o := range ops {
 		names[i] = o.String()
 	}
-	depth := 3
+	depth := 6
 	if !c.Quick() {
-		depth = 5
+		depth = 10
 	}
 	n := core.NumWorkers()
 	envs := make([]*workerEnv, n)
